@@ -199,6 +199,7 @@ def run(ctx: Ctx) -> None:
         d = ord_tree(rng, rng.choice([1, 2, 3, 3, 4, 5]), catalogue)
         cases.append((d, rng.randrange(0, 6), rng.choice(EOLS)))
 
+    cases = ctx.select("Tag.get_html_string (ordinary trees)", cases)
     # spec side: ordinary? + canonical forest of the tree
     spec = run_model([[12, to_sx(d), S(eol)] for d, i, eol in cases])
     ok_all = True
@@ -359,7 +360,6 @@ def histories(ctx: Ctx, catalogue) -> None:
 
 
 def replay(ctx: Ctx, path: str) -> None:
-    import json
-    with open(path) as f:
-        print(json.dumps(json.load(f), indent=1)[:3000])
+    """re-run the recorded input (the step that reported it runs that single case)"""
+    ctx.load_replay(path)
     run(ctx)
